@@ -63,9 +63,14 @@ def transform(ctx, sy, tr, arg=None):
         out["pos"] = [[[pos[f][i][a] + t[a] for a in range(d)] for i in range(N)] for f in range(F)]
     elif tr == "image":
         # arg == "one": only particle 0 is shifted (by an arbitrary integer vector); default: every particle independently
-        ks = [[(ctx.integer(f"k{i}_{a}", lo=-2, hi=2) if (arg != "one" or i == 0) else 0) for a in range(d)] for i in range(N)]
+        # arg == "perframe": an independent image vector for every particle in every frame (what a wrapped trajectory is)
+        if arg == "perframe":
+            ksf = [[[ctx.integer(f"k{f}_{i}_{a}", lo=-2, hi=2) for a in range(d)] for i in range(N)] for f in range(F)]
+        else:
+            ks = [[(ctx.integer(f"k{i}_{a}", lo=-2, hi=2) if (arg != "one" or i == 0) else 0) for a in range(d)] for i in range(N)]
+            ksf = [ks] * F
         rows = sy["rows"]
-        out["pos"] = [[[pos[f][i][a] + sum(ks[i][b] * rows[b][a] for b in range(d)) for a in range(d)] for i in range(N)]
+        out["pos"] = [[[pos[f][i][a] + sum(ksf[f][i][b] * rows[b][a] for b in range(d)) for a in range(d)] for i in range(N)]
                       for f in range(F)]
     elif tr == "relabel":
         perm = list(arg)
@@ -467,7 +472,7 @@ def cfg(tier, seed):
     # ---- relaxation functions
     rel = dict(d=2, N=2, F=3, types=[1, 2])
     for tr, arg, mode, cell, ppp in (("translate", None, "xu", "o", opn), ("relabel", [1, 0], "xu", "o", opn), ("axes", [1, 0], "xu", "o", opn),
-                                     ("image", None, "x", "o", per), ("image", None, "x", "t-", per)):
+                                     ("image", "perframe", "x", "o", per), ("image", "perframe", "x", "t-", per)):
         out.append(dict(obs="relax", tr=tr, cell=cell, ppp=ppp, arg=arg, params=dict(mode=mode), **rel))
     # ---- shape descriptors, participation ratio
     for tr, arg in (("translate", None), ("rotate", None), ("relabel", [2, 0, 1])):
